@@ -8,11 +8,16 @@ package redis
 //
 // cfg:  n=<instances> keys=<distinct keys>     instance i locks key "k<i % keys>"
 // ops:  ft <ms> | acquire <i> | release <i> | setexpire <i> <seconds> | ids
-// obs:  <true|false|ok|err:<class>> k0=<owner>:<pttl>|k0=- ...
+//       race <i> <j> ...   Acquire of distinct instances from concurrent goroutines (released together by a barrier)
+//       down | up          miniredis.SetError: every command fails / works again
+// obs:  <true|false|ok|err> k0=<owner>:<pttl>|k0=- ...        race => won=<i,j|-> <store>
 
 import (
 	"fmt"
+	"sort"
+	"strconv"
 	"strings"
+	"sync"
 	"testing"
 	"time"
 
@@ -95,9 +100,7 @@ func c19Gen(r *verifh.Rng) []verifh.Section {
 			}
 			return cands[r.Intn(len(cands))]
 		}
-		if r.Chance(1, 3) {
-			add("ids")
-		}
+		add("ids")
 		// most instances get a small number of seconds; some keep the zero value (lease = 500 ms)
 		for i := 0; i < n; i++ {
 			if r.Chance(3, 4) {
@@ -156,11 +159,54 @@ func c19Gen(r *verifh.Rng) []verifh.Section {
 				acq(i)
 				ft(sim.rem[k])
 				acq(other(i))
-			case x < 94:
+			case x < 91:
 				// burst of competing acquires at one instant
 				for c := 0; c < r.Range(2, 5); c++ {
 					acq(r.Intn(n))
 				}
+			case x < 96:
+				// truly concurrent Acquire attempts of distinct instances
+				if n >= 2 {
+					m := r.Range(2, min(n, 6))
+					perm := make([]int, n)
+					for a := range perm {
+						perm[a] = a
+					}
+					for a := n - 1; a > 0; a-- {
+						b := r.Intn(a + 1)
+						perm[a], perm[b] = perm[b], perm[a]
+					}
+					var sb strings.Builder
+					sb.WriteString("race")
+					for _, a := range perm[:m] {
+						fmt.Fprintf(&sb, " %d", a)
+					}
+					ops = append(ops, sb.String())
+					// the generator's picture cannot know the winner: forget what it thought about these keys
+					for _, a := range perm[:m] {
+						if sim.holder[a%nkeys] != a {
+							if sim.holder[a%nkeys] < 0 {
+								sim.holder[a%nkeys], sim.rem[a%nkeys] = a, 500
+							}
+						} else {
+							sim.acquire(a, nkeys)
+						}
+					}
+				}
+			case x < 97:
+				// Redis unreachable for a call or two
+				add("down")
+				for c := 0; c < r.Range(1, 2); c++ {
+					if r.Bool() {
+						add("acquire %d", r.Intn(n))
+					} else {
+						add("release %d", r.Intn(n))
+					}
+				}
+				if r.Chance(1, 3) {
+					ft(r.Pick(1, 500))
+				}
+				add("up")
 			default:
 				rel(i)
 				rel(other(i))
@@ -182,6 +228,7 @@ func TestVerifC19(t *testing.T) {
 		if n <= 0 || nkeys <= 0 {
 			return func([]string) string { return "bad-cfg" }, nil
 		}
+		mr.SetError("")
 		mr.FlushAll()
 		locks := make([]*RedisLock, n)
 		idOf := map[string]int{}
@@ -266,6 +313,55 @@ func TestVerifC19(t *testing.T) {
 				res = boolRes(inst(op[1]).Release())
 			case op[0] == "setexpire" && len(op) == 3:
 				inst(op[1]).SetExpire(int(verifh.Atoi64(op[2])))
+			case op[0] == "down" && len(op) == 1:
+				mr.SetError("LOADING verif: redis is down")
+				return "ok"
+			case op[0] == "up" && len(op) == 1:
+				mr.SetError("")
+				return "ok"
+			case op[0] == "race" && len(op) >= 3:
+				racers := make([]*RedisLock, len(op)-1)
+				for a := range racers {
+					racers[a] = inst(op[a+1])
+				}
+				results := make([]string, len(racers))
+				var start, done sync.WaitGroup
+				start.Add(1)
+				for a := range racers {
+					done.Add(1)
+					go func(a int) {
+						defer done.Done()
+						start.Wait()
+						results[a] = boolRes(racers[a].Acquire())
+					}(a)
+				}
+				start.Done()
+				done.Wait()
+				var won []int
+				nerr := 0
+				for a, rs := range results {
+					switch rs {
+					case "true":
+						won = append(won, verifh.Atoi(op[a+1]))
+					case "err":
+						nerr++
+					}
+				}
+				switch {
+				case nerr == len(results):
+					res = "err"
+				case nerr > 0:
+					res = "err-partial"
+				case len(won) == 0:
+					res = "won=-"
+				default:
+					sort.Ints(won)
+					ss := make([]string, len(won))
+					for a, w := range won {
+						ss[a] = strconv.Itoa(w)
+					}
+					res = "won=" + strings.Join(ss, ",")
+				}
 			case op[0] == "ids" && len(op) == 1:
 				if dup {
 					return "dup"
